@@ -100,6 +100,28 @@ def run(tier):
         if bad:
             check.violation({"class": bad[0], "kind": o["kind"], "label": bad[1]},
                             {"instance": o, "detail": bad[2], "parsed_dump": r["lit"]})
+    # Walk.tla's derived prescriptions: the same Dumper object used again yields the same dump; one node object in every child slot
+    # is dumped once per slot
+    base = [o for o in inst if all(x in (0, 1, maxlen) for x in o["slots"])]
+    t2 = [{"op": "synth", "kind": o["kind"], "slots": o["slots"], "run": "dump", "tokens": "tokens" in o["opts"], "positions": "positions" in o["opts"], "again": True}
+          for o in base] + \
+         [{"op": "synth", "kind": o["kind"], "slots": o["slots"], "run": "dump", "tokens": "tokens" in o["opts"], "positions": "positions" in o["opts"], "shared": True}
+          for o in base]
+    for o, t, r in zip(base + base, t2, wp.run(t2)):
+        check.count()
+        if r.get("panic") or r.get("hang") or r.get("crash"):
+            check.violation({"class": "crash", "kind": o["kind"], "site": r.get("site")}, {"task": t, "observed": r})
+            continue
+        if "dump_err" in r:
+            continue        # reported above for the plain instance
+        if t.get("again") and r.get("same_again") is False:
+            check.violation({"class": "dumper-object-not-reusable", "kind": o["kind"], "label": None}, {"instance": o, "second_dump": r.get("out2")})
+        if t.get("shared"):
+            os_ = dict(o, expect=[(a_, ["N0.0" if x.startswith("N") else x for x in b_]) for a_, b_ in o["expect"]])
+            bad = compare(os_, r["lit"])
+            if bad:
+                check.violation({"class": "shared-child-" + bad[0], "kind": o["kind"], "label": bad[1]}, {"instance": o, "detail": bad[2], "parsed_dump": r["lit"]})
+    check.cov["again_and_shared_instances"] = len(t2)
     check.sample({"direction": "spec->impl", "instance": inst[len(inst) // 3]})
     check.cov["kinds_covered"] = len(kinds)
     check.cov["traces_validated_against_impl"] += len(inst)
